@@ -1314,6 +1314,23 @@ impl MachineState {
 }
 
 impl Machine {
+    /// On backtracking into a dynamic predicate, the call's view of the database
+    /// (its clock reading) is the one saved in its choice point, not the reading left
+    /// behind by whichever dynamic call ran last.
+    #[inline(always)]
+    fn restore_dynamic_cc(&mut self) {
+        if let FirstOrNext::Next = self.machine_st.dynamic_mode {
+            let b = self.machine_st.b;
+            let n = self.machine_st.stack.index_or_frame(b).prelude.num_cells;
+
+            self.machine_st.cc = unsafe {
+                self.machine_st.stack[stack_loc!(OrFrame, b, n - 1)]
+                    .to_fixnum_or_cut_point_unchecked()
+            }
+            .get_num() as usize;
+        }
+    }
+
     pub(super) fn find_living_dynamic_else(&self, mut p: usize) -> Option<(usize, usize)> {
         loop {
             match self.code[p] {
@@ -1781,6 +1798,8 @@ impl Machine {
                             self.machine_st.cc = self.machine_st.global_clock;
                         }
 
+                        self.restore_dynamic_cc();
+
                         let p = self.machine_st.p;
 
                         match self.find_living_dynamic_else(p) {
@@ -1865,6 +1884,8 @@ impl Machine {
                         }
                     }
                     &Instruction::DynamicInternalElse(..) => {
+                        self.restore_dynamic_cc();
+
                         let p = self.machine_st.p;
 
                         match self.find_living_dynamic_else(p) {
@@ -3689,6 +3710,8 @@ impl Machine {
                                 }
                             }
                             IndexingLine::DynamicIndexedChoice(_) => {
+                                self.restore_dynamic_cc();
+
                                 let p = self.machine_st.p;
 
                                 match self
